@@ -13,7 +13,7 @@ import (
 	"verifharness/srv"
 )
 
-func init() { runners["C16"] = runC16 }
+func main() { common.Main("C16", runC16) }
 
 type wnum struct {
 	Star bool
@@ -46,12 +46,12 @@ func (r wrange) String() string {
 }
 
 type c16case struct {
-	ID    int      `json:"id"`
-	Kind  string   `json:"kind"`
-	UIDs  []int    `json:"uids"`
-	Set   string   `json:"set"`
-	Obs   string   `json:"obs"`
-	Want  string   `json:"want"`
+	ID    int    `json:"id"`
+	Kind  string `json:"kind"`
+	UIDs  []int  `json:"uids"`
+	Set   string `json:"set"`
+	Obs   string `json:"obs"`
+	Want  string `json:"want"`
 	set   []wrange
 	obsS  []int
 	obsK  string // BAD NO SEL OTHER
@@ -65,7 +65,7 @@ var (
 	two64 = new(big.Int).Lsh(big.NewInt(1), 64)
 )
 
-func bi(x int64) *big.Int { return big.NewInt(x) }
+func bi(x int64) *big.Int              { return big.NewInt(x) }
 func add(a *big.Int, k int64) *big.Int { return new(big.Int).Add(a, bi(k)) }
 
 func genNum(rng *common.Rng, cnt int, maxuid int, uidMode bool) wnum {
@@ -240,7 +240,7 @@ func c16BuildBox(c *imapc.Client, name string, n int, drop []int) ([]int, error)
 		return nil, fmt.Errorf("create %s: %v %v", name, err, r.Text)
 	}
 	for i := 0; i < n; i++ {
-		r, err := c.Append(name, "", Message(fmt.Sprintf("%s-%d", name, i+1), "x"))
+		r, err := c.Append(name, "", common.Message(fmt.Sprintf("%s-%d", name, i+1), "x"))
 		if err != nil || r.Status != "OK" {
 			return nil, fmt.Errorf("append: %v %v", err, r.Text)
 		}
@@ -309,7 +309,7 @@ func posOf(uids []int, u int) int {
 	return -1
 }
 
-func runC16(ctx *Ctx) error {
+func runC16(ctx *common.Ctx) error {
 	s, err := srv.Start(srv.Options{})
 	if err != nil {
 		return err
